@@ -31,9 +31,10 @@ MANIFEST = dict(
          'load median; that model value increases strictly with the load median, decreases strictly with the strength median and lies in (0,1); '
          'the closed form Phi((lm-sm)/sqrt(ls^2+ss^2)) is in (0,1), increasing in load, decreasing in strength, complementary under exchange '
          'of load and strength, and tends to pf_simple_load as the load scatter vanishes; the hand-written trapezoid model of '
-         'pf_arbitrary_load lies between 0 and the trapezoid sum of the density. Per run the kernel checks by CoqInterval `integral` '
+         'pf_arbitrary_load lies between 0 and the trapezoid sum of the density on an ascending grid (refuted without `ascending`) and does not increase with the strength median for one sampled density. Per run the kernel checks by CoqInterval `integral` '
          'certificates that the implementation\'s float results agree with the closed form / models on sampled inputs (relative 1e-6 down to '
-         'P_f = 1e-12), and the relations of the property are evaluated on the implementation.',
+         'P_f = 1e-12; pf_arbitrary_load: two calls on the same arrays), and the relations of the property are evaluated on the implementation, '
+         'including sequences of calls on shared arrays / one object (arguments unmodified, repeated call identical, no dependence on the call history).',
     note=common.TB_NOTE + 'py2coq translator and its whitelist; CoqInterval (integral, interval); borrowed and NOT formalised: the Gaussian '
          'convolution identity int phi_ls(x) Phi((x-d)/ss) dx = Phi(-d/sqrt(ls^2+ss^2)) (stated as a Prop, used only as hypothesis of '
          'pf_norm_load_closed_form_partial); scipy.integrate.quad (QUADPACK) is idealised as the Riemann integral: what it really returns '
@@ -52,6 +53,7 @@ INTEGRAL = 'integral with (i_prec 110, i_fuel 4000, i_degree 18)'
 ARB_UNFOLD = 'cbv beta iota zeta delta [pf_arbitrary_model trapz weight_by_cdf norm_cdf Phi gauss];'
 ARB_FINAL = 'enclose_integrals; interval with (i_prec 70)'
 
+SIMPLE_CERT_MIN = 1e-12     # pf_simple_load certificates are sampled for P_f >= this (the property's range)
 RTOL = 1e-6          # |pf_norm_load - closed form| <= RTOL * closed form   (quad asks for 1.49e-8 relative)
 W_CLOSED = 'pf_norm_load differs from the closed form Phi((lm-sm)/sqrt(ls^2+ss^2))'
 W_RANGE = 'failure probability outside [0, 1]'
@@ -62,6 +64,12 @@ W_ARB = 'pf_arbitrary_load on a sampled log-normal density differs from the clos
 W_LIMITS = 'pf_norm_load with the default limits given explicitly differs from the default call'
 W_SIMPLE = 'pf_simple_load differs from Phi((log10 load - log10 strength median)/strength std)'
 W_ERR = 'failure probability call raised'
+W_PURE = "a failure probability call modified its caller's argument"
+W_REPEAT = 'repeating a failure probability call with the same arguments gives a different value'
+W_ARB_SEQ = 'pf_arbitrary_load on a sampled log-normal density that an earlier call has already been given differs from the closed form'
+W_ARB_MONO = 'pf_arbitrary_load on one sampled density does not decrease with the strength median'
+W_STATE = 'failure probability depends on the earlier calls made on the same FailureProbability object'
+W_ARRAY = 'pf_simple_load with array-valued strength parameters differs from the scalar calls'
 
 
 # --------------------------------------------------------------------------- oracle (floats)
@@ -107,6 +115,14 @@ def k_step_missed(d):
     """strength distribution much narrower than the load distribution: the bisection of +-16 load scatters steps over the
     transition of the strength cdf (absolute error up to about 1e-2), and the value is the one default QUADPACK gives."""
     return d['load_std'] / d['strength_std'] >= 40.0 and 2e-8 < abs(d['observed'] - d['expected']) <= 2e-2 and reproduces_defect(d)
+
+
+def k_descending_grid(d):
+    """pf_arbitrary_load integrates with the orientation of the grid: on a strictly descending grid of load values the
+    result is exactly the negative of the value on the same samples in ascending order (which itself is right)."""
+    asc = d['observed_on_the_same_samples_ascending']
+    return (d.get('function') == 'pf_arbitrary_load' and d.get('grid_order') == 'descending' and d['observed'] < 0.0
+            and abs(d['observed'] + asc) <= 1e-9 * abs(asc) and abs(asc - d['expected']) <= d['tolerance'])
 
 
 # --------------------------------------------------------------------------- generators
@@ -174,6 +190,177 @@ def arb_case(p, n, k, rng=None):
     return x, pdf, bound
 
 
+def make_grid(p, n, k, grid_seed, order, container):
+    """The two objects handed to pf_arbitrary_load, rebuilt deterministically from their description (run and replay):
+    uniform (grid_seed None) or random grid over +-k load scatters, ascending or descending, ndarray or pandas Series."""
+    import random
+    x, pdf, bound = arb_case(p, n, k, None if grid_seed is None else random.Random(grid_seed))
+    if order == 'descending':
+        x, pdf = x[::-1].copy(), pdf[::-1].copy()
+    if container == 'series':
+        import pandas as pd
+        x, pdf = pd.Series(x), pd.Series(pdf)
+    return x, pdf, bound
+
+
+def arb_sequence(R, FP, p, n, k, grid_seed, order, container, factors):
+    """One sampled log-normal load density -- the SAME two array objects throughout -- assessed for the strength medians
+    p.strength_median * f, f in `factors` in that order, as a caller does who samples the density once (strength sweep, design
+    variants), the last call repeated.  Relations: every value against the closed form for its strength (rigorous trapezoid
+    bound) and in range; the caller's arrays are left unmodified; the repeated call returns the same value; along increasing
+    strength the value does not increase (theorem pf_arbitrary_model_decreasing_in_strength)."""
+    x, pdf, bound = make_grid(p, n, k, grid_seed, order, container)
+    x0, pdf0 = np.array(x, dtype=float, copy=True), np.array(pdf, dtype=float, copy=True)
+    xa, pa = (x0, pdf0) if order == 'ascending' else (x0[::-1].copy(), pdf0[::-1].copy())
+    # theorem pf_arbitrary_model_bounds: between 0 and the trapezoid sum of the sampled density itself (the discrete total
+    # probability; it exceeds 1 by the discretisation error on coarse random grids)
+    total = float(np.sum(np.diff(xa) * (pa[1:] + pa[:-1]) / 2.0))
+    desc = dict(function='pf_arbitrary_load', grid_points=n, half_width_in_load_std=k, grid='uniform' if grid_seed is None else 'random',
+                grid_seed=grid_seed, grid_order=order, container=container, strength_factors=list(factors),
+                load_median=p['load_median'], load_std=p['load_std'], strength_std=p['strength_std'], base_strength_median=p['strength_median'])
+    good, done, modified = [], [], []
+    for j, f in enumerate(factors):
+        sm = p['strength_median'] * f
+        q = dict(p, strength_median=sm)
+        exp = closed_form(**_cf(q))[0]
+        R.n += 1
+        here = dict(desc, strength_median=sm, call_number=j + 1, earlier_strength_medians=list(done))
+        try:
+            fp = FP.FailureProbability(sm, p['strength_std'])
+            v = float(fp.pf_arbitrary_load(x, pdf))
+            again = float(fp.pf_arbitrary_load(x, pdf)) if j == len(factors) - 1 else v
+        except Exception as e:   # noqa
+            R.bad(W_ERR, observed=repr(e), **here)
+            done.append(sm)
+            continue
+        done.append(sm)
+        changed = [nm for nm, cur, ref in (('load_values', x, x0), ('load_pdf', pdf, pdf0))
+                   if nm not in modified and not np.array_equal(np.asarray(cur, dtype=float), ref)]
+        for nm in changed:
+            cur = np.asarray(x if nm == 'load_values' else pdf, dtype=float)
+            ref = x0 if nm == 'load_values' else pdf0
+            delta = float(np.max(np.abs(cur - ref))) if cur.shape == ref.shape else 'shape changed'
+            R.bad(W_PURE, modified_argument=nm, max_abs_change=delta, observed=v, **here)
+            modified.append(nm)
+        in_range = 0.0 <= v <= total * (1 + 1e-12) + 1e-300
+        if not abs(v - exp) <= bound or not in_range:
+            extra = {}
+            if order == 'descending':
+                try:
+                    extra['observed_on_the_same_samples_ascending'] = float(fp.pf_arbitrary_load(xa.copy(), pa.copy()))
+                except Exception as e:   # noqa
+                    extra['observed_on_the_same_samples_ascending'] = repr(e)
+            R.bad(W_RANGE if not in_range else (W_ARB if j == 0 else W_ARB_SEQ), observed=v, expected=exp, tolerance=bound,
+                  density_total=total, arguments_modified_by_earlier_calls=list(modified), **dict(here, **extra))
+        else:
+            good.append((sm, v))
+        if again != v:
+            R.bad(W_REPEAT, observed_first=v, observed_second=again, **here)
+    good.sort()
+    for (s1, v1), (s2, v2) in zip(good, good[1:]):
+        R.n += 1
+        if s1 < s2 and not v2 <= v1 * (1 + 1e-12) + 1e-300:
+            R.bad(W_ARB_MONO, strength_medians=[s1, s2], observed=[v1, v2], **desc)
+    return good
+
+
+def apply_op(FP, fp, op):
+    """one call described by a JSON-able dict; returns (value, names of arguments the call modified)"""
+    k = op['op']
+    if k == 'norm':
+        return float(fp.pf_norm_load(op['load_median'], op['load_std'])), []
+    if k == 'norm_limits':
+        return float(fp.pf_norm_load(op['load_median'], op['load_std'], lower_limit=op['lower_limit'], upper_limit=op['upper_limit'])), []
+    if k == 'simple':
+        return float(fp.pf_simple_load(op['load'])), []
+    if k == 'simple_array':
+        a = np.array(op['loads'], dtype=float)
+        a0 = a.copy()
+        r = np.asarray(fp.pf_simple_load(a), dtype=float).tolist()
+        return r, ([] if np.array_equal(a, a0) else ['load'])
+    if k == 'arbitrary':
+        x, pdf, _ = make_grid(op['density'], op['grid_points'], 9.0, None, 'ascending', 'ndarray')
+        x0, pdf0 = x.copy(), pdf.copy()
+        v = float(fp.pf_arbitrary_load(x, pdf))
+        return v, [nm for nm, a, b in (('load_values', x, x0), ('load_pdf', pdf, pdf0)) if not np.array_equal(a, b)]
+    raise ValueError(k)
+
+
+def eval_state_sequence(spec):
+    """worker: a sequence of calls of all three methods on ONE FailureProbability object; every value must be the one a fresh
+    object returns for the same call (no hidden state, no dependence on the call history), no argument is modified; the same
+    with array-valued strength parameters against the scalar calls.  Returns (number of relation evaluations, findings)."""
+    import warnings
+    warnings.filterwarnings('ignore')
+    FP = _fp()
+    sm, ss, ops = spec['strength_median'], spec['strength_std'], spec['ops']
+    out, n, history = [], 0, []
+    try:
+        used = FP.FailureProbability(sm, ss)
+    except Exception as e:   # noqa
+        return 1, [(W_ERR, dict(function='FailureProbability', observed=repr(e), strength_median=sm, strength_std=ss))]
+    for op in ops:
+        n += 1
+        try:
+            got, mod = apply_op(FP, used, op)
+            ref, _ = apply_op(FP, FP.FailureProbability(sm, ss), op)
+        except Exception as e:   # noqa
+            out.append((W_ERR, dict(observed=repr(e), strength_median=sm, strength_std=ss, call=op, earlier_calls_on_the_same_object=list(history))))
+            history.append(op)
+            continue
+        if got != ref:
+            out.append((W_STATE, dict(strength_median=sm, strength_std=ss, call=op, earlier_calls_on_the_same_object=list(history),
+                                      observed_on_the_used_object=got, observed_on_a_fresh_object=ref)))
+        for nm in mod:
+            out.append((W_PURE, dict(function=op['op'], modified_argument=nm, strength_median=sm, strength_std=ss, call=op)))
+        history.append(op)
+    # array-valued strength parameters (docstring: array_like, shape (N,)) with pf_simple_load: elementwise the scalar calls
+    n += 1
+    fac = spec['array_factors']
+    sma, ssa, loads = np.array([sm * f for f in fac]), np.array([ss * f for f in fac[::-1]]), np.array(spec['array_loads'], dtype=float)
+    keep = sma.copy(), ssa.copy(), loads.copy()
+    try:
+        fa = FP.FailureProbability(sma, ssa)
+        first = np.asarray(fa.pf_simple_load(loads), dtype=float).tolist()
+        second = np.asarray(fa.pf_simple_load(loads), dtype=float).tolist()
+        scal = [float(FP.FailureProbability(float(a), float(b)).pf_simple_load(float(c))) for a, b, c in zip(*keep)]
+        d = dict(strength_median=keep[0].tolist(), strength_std=keep[1].tolist(), load=keep[2].tolist())
+        if first != scal or second != scal:
+            out.append((W_ARRAY, dict(d, observed_first_call=first, observed_second_call=second, scalar_calls=scal)))
+        for nm, a, b in (('strength_median', sma, keep[0]), ('strength_std', ssa, keep[1]), ('load', loads, keep[2])):
+            if not np.array_equal(a, b):
+                out.append((W_PURE, dict(d, function='FailureProbability(arrays).pf_simple_load', modified_argument=nm)))
+    except Exception as e:   # noqa
+        out.append((W_ERR, dict(function='FailureProbability(arrays).pf_simple_load', observed=repr(e), strength_median=keep[0].tolist(),
+                                strength_std=keep[1].tolist(), load=keep[2].tolist())))
+    return n, out
+
+
+def gen_state_sequence(rng):
+    p = gen_params(rng, rng.choice(['wide', 'mid', 'small']))
+    sm, ss = p['strength_median'], p['strength_std']
+    s = math.sqrt(p['load_std'] ** 2 + ss ** 2)
+    ops = []
+    for _ in range(2):
+        lm = p['load_median'] * 10 ** (rng.uniform(-1.5, 1.5) * s)
+        ls = p['load_std'] * 10 ** rng.uniform(-0.5, 0.5)
+        ops.append(dict(op='norm', load_median=lm, load_std=ls))
+    ops.append(dict(ops[0], load_std=ops[0]['load_std'] * 10 ** rng.uniform(0.1, 0.5)))     # same load median, other scatter
+    c = math.log10(p['load_median'])
+    ops.append(dict(op='norm_limits', load_median=p['load_median'], load_std=p['load_std'],
+                    lower_limit=c - rng.uniform(4, 16) * p['load_std'], upper_limit=c + rng.uniform(4, 16) * p['load_std']))
+    ops.append(dict(op='simple', load=sm * 10 ** (rng.uniform(-5, 5) * ss)))
+    ops.append(dict(op='simple_array', loads=[sm * 10 ** (rng.uniform(-5, 5) * ss) for _ in range(3)]))
+    q = gen_params(rng, 'mid')
+    while q['load_std'] / q['strength_std'] > 30:
+        q = gen_params(rng, 'mid')
+    ops.append(dict(op='arbitrary', grid_points=2001, density=dict(q, strength_median=sm, strength_std=ss)))
+    rng.shuffle(ops)
+    ops = ops + [dict(o) for o in ops[:3]]        # the first calls once more, after all the others
+    return dict(strength_median=sm, strength_std=ss, ops=ops, array_factors=[1.0, 10 ** rng.uniform(0.1, 1), 10 ** rng.uniform(-1, -0.1)],
+                array_loads=[sm * 10 ** (rng.uniform(-4, 4) * ss) for _ in range(3)])
+
+
 # --------------------------------------------------------------------------- relations on the implementation
 
 class Relations:
@@ -236,7 +423,7 @@ def corpus_points():
         return []
 
 
-def impl_relations(res, rng, n_pts, n_chain, n_lim, n_arb, n_simple):
+def impl_relations(res, rng, n_pts, n_chain, n_lim, n_arb, n_simple, n_state):
     FP = _fp()
     R = Relations(res)
     # ---- corpus (hand-picked edge cases, run first) + sampled points + chains, evaluated in parallel
@@ -306,8 +493,12 @@ def impl_relations(res, rng, n_pts, n_chain, n_lim, n_arb, n_simple):
         fp = FP.FailureProbability(sm, ss)
         R.n += 1
         try:
-            loads = np.array([L, L * 10 ** (0.3 * ss), L * 10 ** (1.1 * ss)])
-            arr = np.asarray(fp.pf_simple_load(loads), float)
+            given = np.array([L, L * 10 ** (0.3 * ss), L * 10 ** (1.1 * ss)])
+            loads = given.copy()
+            arr = np.asarray(fp.pf_simple_load(given), float)
+            if not np.array_equal(given, loads):
+                R.bad(W_PURE, function='pf_simple_load', modified_argument='load', strength_median=sm, strength_std=ss, load=loads.tolist(),
+                      load_array_after_the_call=given.tolist())
             sc = [float(fp.pf_simple_load(float(x))) for x in loads]
             dec = float(FP.FailureProbability(sm * 10 ** (0.4 * ss), ss).pf_simple_load(L))
         except Exception as e:   # noqa
@@ -327,30 +518,27 @@ def impl_relations(res, rng, n_pts, n_chain, n_lim, n_arb, n_simple):
         if not dec <= sc[0] or (1e-300 < sc[0] < 0.999 and not dec < sc[0]):
             R.bad('pf_simple_load does not decrease with the strength median', strength_median=[sm, sm * 10 ** (0.4 * ss)],
                   strength_std=ss, load=L, observed=[sc[0], dec])
-    # ---- pf_arbitrary_load on a sampled log-normal density
+    # ---- pf_arbitrary_load on a sampled log-normal density: one density (the same array objects) for several strengths
     for j in range(n_arb):
         p = gen_params(rng, rng.choice(['wide', 'mid']))
         # the trapezoid rule needs grid spacing << both scatters: scatter ratio restricted to 1e-3 .. 30 here
         while p['load_std'] / p['strength_std'] > 30:
             p = gen_params(rng, 'mid')
-        exp = closed_form(**_cf(p))[0]
-        fp = FP.FailureProbability(p['strength_median'], p['strength_std'])
-        for n, grid_rng in ((6001, None), (24001, None), (12000, rng)):
-            x, pdf, bound = arb_case(p, n, 9.0, grid_rng)
-            R.n += 1
-            try:
-                v = float(fp.pf_arbitrary_load(x, pdf))
-            except Exception as e:   # noqa
-                R.bad(W_ERR, function='pf_arbitrary_load', observed=repr(e), grid_points=n, **p)
-                continue
-            # range: theorem pf_arbitrary_model_bounds -- between 0 and the trapezoid sum of the sampled density itself
-            # (that sum is the discrete total probability; it exceeds 1 by the discretisation error on coarse random grids)
-            total = float(np.sum(np.diff(x) * (pdf[1:] + pdf[:-1]) / 2.0))
-            in_range = 0.0 <= v <= total * (1 + 1e-12) + 1e-300
-            if not abs(v - exp) <= bound or not in_range:
-                R.bad(W_ARB if in_range else W_RANGE, function='pf_arbitrary_load', observed=v, expected=exp, tolerance=bound, density_total=total,
-                      grid_points=n, half_width_in_load_std=9.0,
-                      grid='uniform' if grid_rng is None else 'random (stored seed, replayed by the check)', **p)
+        s = math.sqrt(p['load_std'] ** 2 + p['strength_std'] ** 2)
+        for n, randomgrid, order, container in ((6001, False, 'ascending', 'ndarray'), (24001, False, 'ascending', 'series'),
+                                                (12000, True, 'ascending', 'ndarray'), (6001, False, 'descending', 'ndarray'),
+                                                (12000, True, 'descending', 'series')):
+            others = [10 ** (rng.choice([-1, 1]) * rng.uniform(0.2, 2.0) * s) for _ in range(2)]
+            factors = [1.0] + others if rng.random() < 0.5 else [others[0], 1.0, others[1]]
+            good = arb_sequence(R, FP, p, n, 9.0, rng.randrange(2 ** 31) if randomgrid else None, order, container, factors)
+            if j == 0 and order == 'ascending' and not randomgrid:
+                res.sample({'pf_arbitrary_load, one sampled density for several strengths': dict(p, grid_points=n, container=container,
+                                                                                              strength_median_and_value=good)})
+    # ---- sequences of calls on one FailureProbability object against fresh objects; array-valued strength parameters
+    for k, found in pmap(eval_state_sequence, [gen_state_sequence(rng) for _ in range(n_state)]):
+        R.n += k
+        for what, kw in found:
+            R.bad(what, **kw)
     return R
 
 
@@ -392,12 +580,19 @@ def certificates(res, rng, n_norm, n_simple, n_arb):
         goals.append('Rabs (%s - %s) <= %s' % (A('pf_closed_of', p['strength_median'], p['strength_std'], p['load_median'], p['load_std']),
                                                common.rlit(got), cert.tol_lit(tol)))
         descr.append(('pf_norm_load vs closed form', p['strength_median'], p['strength_std'], p['load_median'], p['load_std'], got))
-    for _ in range(n_simple):
+    out_of_range = 0
+    n_s = 0
+    while n_s < n_simple and out_of_range < 50 * n_simple + 50:
         p = gen_params(rng)
         sm, ss, L = p['strength_median'], p['strength_std'], p['load_median'] ** rng.choice([1.0, 0.5])
         v = float(FP.FailureProbability(sm, ss).pf_simple_load(L))
-        if not v > 1e-30:
+        # the property's range P_f >= 1e-12 (relative 1e-9 there is absolute 1e-21).  Below it Phi = 1/2 + integral cancels to more
+        # digits than the certificate precision (i_prec 110 = 33 digits) holds and `integral` bisects until its fuel is used up
+        # (minutes, never closes): those candidates are not sampled; the float relation above covers them against ndtr
+        if not v >= SIMPLE_CERT_MIN:
+            out_of_range += 1
             continue
+        n_s += 1
         goals.append('Rabs (%s - %s) <= %s' % (A('fp_pf_simple_load', sm, ss, L), common.rlit(v), cert.tol_lit(1e-9 * v)))
         descr.append(('pf_simple_load vs generated model', sm, ss, L, v))
     for _ in range(n_arb):
@@ -407,34 +602,105 @@ def certificates(res, rng, n_norm, n_simple, n_arb):
         c = math.log10(sm)
         xs = sorted(c + ss * rng.uniform(-3, 3) for _ in range(k))
         pdf = [rng.uniform(0.0, 2.0) for _ in range(k)]
-        v = float(FP.FailureProbability(sm, ss).pf_arbitrary_load(np.array(xs), np.array(pdf)))
-        arb_goals.append('Rabs (pf_arbitrary_model %s %s %s %s - %s) <= %s' % (
-            common.rlit(sm), common.rlit(ss), common.coq_list(xs, common.rlit), common.coq_list(pdf, common.rlit),
-            common.rlit(v), cert.tol_lit(1e-9 * abs(v) + 1e-12)))
-        arb_descr.append(('pf_arbitrary_load vs trapezoid model', sm, ss, xs, pdf, v))
+        # ONE pair of arrays for two calls (two strength medians), as a caller does who sampled the density once; both values
+        # are certified against the model applied to the ORIGINAL samples
+        ax, ap = np.array(xs), np.array(pdf)
+        for sm_i in (sm, sm * 10 ** (rng.uniform(-1.5, 1.5) * ss)):
+            v = float(FP.FailureProbability(sm_i, ss).pf_arbitrary_load(ax, ap))
+            arb_goals.append('Rabs (pf_arbitrary_model %s %s %s %s - %s) <= %s' % (
+                common.rlit(sm_i), common.rlit(ss), common.coq_list(xs, common.rlit), common.coq_list(pdf, common.rlit),
+                common.rlit(v), cert.tol_lit(1e-9 * abs(v) + 1e-12)))
+            arb_descr.append(('pf_arbitrary_load vs trapezoid model (call %d on the same arrays)' % (1 if sm_i == sm else 2), sm_i, ss, xs, pdf, v))
     return goals, descr, arb_goals, arb_descr, skipped
 
 
 # --------------------------------------------------------------------------- run / replay
 
-def run_certs_retry(name, req, unfolds, goals, **kw):
-    """cert.run_certs; goals that failed without a Coq error message (coqc killed / out of memory on an overloaded
-    machine: an infrastructure failure, not a result) are retried once."""
-    ok, bad, log = cert.run_certs(name, req, unfolds, goals, **kw)
-    if bad and 'Error' not in log and 'CERT-BAD' not in log:
-        ok2, bad2, log2 = cert.run_certs(name + 'retry', req, unfolds, [goals[i] for i in bad], **kw)
-        ok = sorted(set(ok) | {bad[i] for i in ok2})
-        bad, log = [bad[i] for i in bad2], log + log2
-    return ok, bad, log
+def run_certs_bounded(name, req, unfolds, goals, goal_timeout, shard_budget, extra_tac='', final_tac=None):
+    """Per-run certificates with a bound on the time of every goal and of every shard.
+
+    Every goal is `Goal G. Proof. timeout <goal_timeout> (tac). Qed.` followed by a marker that coqc prints only after the Qed
+    was accepted.  A shard is compiled by one coqc under a shell timeout and never retried blindly: when coqc stops at a goal,
+    that goal is classified from the error (Coq `Timeout!` / shell timeout / killed => NOT EVALUATED; any other error => BAD)
+    and the rest of the shard is compiled by a new coqc, as long as the shard's time budget lasts; goals not reached within the
+    budget are NOT EVALUATED.  Returns (ok, bad, unevaluated, log): ok = goals closed under Qed (kernel-checked).  A goal that
+    was not evaluated is never a pass and never a failure: the caller counts it and requires enough evaluated goals."""
+    import re
+    import time
+    from concurrent.futures import ThreadPoolExecutor
+    reqs = '\n'.join(req)
+    unf = ('unfold %s;' % ', '.join(unfolds)) if unfolds else ''
+    tac = '%s cbv beta iota zeta; repeat match goal with |- _ /\\ _ => split end; %s cert_prep; %s' % (unf, extra_tac, final_tac)
+    nshard = max(1, min(common.NCPU, len(goals)))
+    shards = [list(range(k, len(goals), nshard)) for k in range(nshard)]      # interleaved: expensive kinds are spread
+
+    def text(idx):
+        out = cert.HEADER % reqs
+        for i in idx:
+            out += 'Goal %s.\nProof. timeout %d (%s). Qed.\nGoal True. idtac "CERT-QED %d". exact I. Qed.\n' % (goals[i], goal_timeout, tac, i)
+        return out
+
+    def one(job):
+        k, idx = job
+        ok, bad, uneval, logs = [], [], [], []
+        rest, used, rnd = list(idx), 0.0, 0
+        d = os.path.join(common.BUILD, 'scratch')
+        common.mkdirs(d)
+        while rest:
+            left = shard_budget - used          # coqc running time only: waiting for a machine-wide coqc slot does not count
+            if left < 5:
+                uneval += rest
+                logs.append('[shard %d: time budget of %ds used up, %d goals not evaluated]' % (k, shard_budget, len(rest)))
+                break
+            path = os.path.join(d, '%s_bcert_%d_%d.v' % (name, k, rnd))
+            with open(path, 'w') as f:
+                f.write(text(rest))
+            with common.Slot():
+                t1 = time.time()
+                rc, out = common.sh(['coqc', '-w', '-all'] + common.COQ_FLAGS + ['-Q', d, 'Scratch', path], cwd=d,
+                                    timeout=min(left, len(rest) * (goal_timeout + 5) + 120))
+                used += time.time() - t1
+            good = rc == 0
+            rnd += 1
+            qed = {int(x) for x in re.findall(r'CERT-QED (\d+)', out)}
+            ok += [i for i in rest if i in qed]
+            rest = [i for i in rest if i not in qed]
+            if good or not rest:
+                uneval += rest          # exit 0 without the marker cannot happen; be safe
+                break
+            first = rest.pop(0)         # coqc stopped at this goal
+            if 'Timeout' in out or common.infra_failure(1, out) or '[timeout after' in out:
+                uneval.append(first)
+                logs.append('[goal %d not evaluated within %ds] %s' % (first, goal_timeout, out[-300:]))
+            else:
+                bad.append(first)
+                logs.append('[goal %d] %s' % (first, out[-1500:]))
+        return ok, bad, uneval, '\n'.join(logs)
+
+    ok, bad, uneval, logs = [], [], [], []
+    with ThreadPoolExecutor(max_workers=nshard) as ex:
+        for a, b, c, l in ex.map(one, list(enumerate(shards))):
+            ok += a
+            bad += b
+            uneval += c
+            logs.append(l)
+    return sorted(ok), sorted(bad), sorted(uneval), '\n'.join(x for x in logs if x)
 
 
 def register(res):
     res.classes['quad-absolute-tolerance'] = k_abs_tolerance
     res.classes['strength-step-missed'] = k_step_missed
+    res.classes['arbitrary-load-descending-grid'] = k_descending_grid
 
 
 def still_fails(entry):
     w = entry['witness']
+    if entry.get('class') == 'arbitrary-load-descending-grid':
+        x, pdf, _ = make_grid(w, w['grid_points'], w['half_width_in_load_std'], None, 'descending', 'ndarray')
+        try:
+            return not float(_fp().FailureProbability(w['strength_median'], w['strength_std']).pf_arbitrary_load(x, pdf)) >= 0.0
+        except Exception:   # noqa
+            return True
     got = eval_norm(w)
     exp = closed_form(**_cf(w))[0]
     return isinstance(got, str) or not abs(got - exp) <= RTOL * exp
@@ -454,15 +720,22 @@ def run(res):
     res.cov['rule'] = ('strength median 1..1e6, geometric mean of the two scatters 0.003..0.3 (log10 units), load/strength scatter ratio 1e-3..1e3, load median chosen for a target '
                        'z = (lm-sm)/sqrt(ls^2+ss^2): uniform in +-7.03, or P_f log-uniform in 1e-12..1e-2, or |z|<1; non-trivial = distinct parameter tuple whose closed-form '
                        'P_f lies in [1e-12, 1-1e-12]')
+    import time
+    t0 = time.time()
+    stage = res.cov.setdefault('wall_s_by_stage', {})
     proofs_ok = common.standard_proof_stage(res, 'C15', extra_targets=['theories/Common/Cert.vo', 'theories/Strength/C15Cert.vo'], gen_fn=lambda: gen_specs.generate(GEN))
+    stage['proofs_and_audit'] = round(time.time() - t0, 1)
+    t0 = time.time()
     # D2 first (cheap, and it is the failing-input search): the relations on the implementation
-    n_pts, n_chain, n_lim, n_arb, n_simple = (400, 60, 25, 12, 60) if quick else (3000, 400, 150, 60, 400)
-    R = impl_relations(res, res.rng, n_pts, n_chain, n_lim, n_arb, n_simple)
+    n_pts, n_chain, n_lim, n_arb, n_simple, n_state = (400, 60, 25, 12, 60, 48) if quick else (3000, 400, 150, 60, 400, 400)
+    R = impl_relations(res, res.rng, n_pts, n_chain, n_lim, n_arb, n_simple, n_state)
     res.add_cases(R.n, nontrivial=len(R.nontrivial))
     res.cov['impl_relation_evaluations'] = R.n
     res.cov['closed_form_disagreements'] = R.flagged
     res.cov['relation_pairs_skipped_because_endpoint_already_reported'] = R.skipped_pairs
     res.cov['calls_that_raised'] = R.raised
+    stage['relations_on_the_implementation'] = round(time.time() - t0, 1)
+    t0 = time.time()
     if not proofs_ok:
         # a proof obligation broke: widen the failing-input search beyond the property's stated range (|z| up to 12,
         # i.e. failure probabilities down to 1.8e-33; further out the +-16 scatter truncation of the integral itself
@@ -473,24 +746,37 @@ def run(res):
     # D1: certificates (need the compiled theories)
     if proofs_ok:
         try:
-            n_norm, n_s, n_a = (28, 8, 4) if quick else (300, 40, 20)
+            n_norm, n_s, n_a = (28, 8, 4) if quick else (300, 40, 12)
             goals, descr, ag, ad, skipped = certificates(res, res.rng, n_norm, n_s, n_a)
-            nshard = max(1, common.NCPU)        # never more than NCPU coqc processes at a time
-            ok, bad, log = run_certs_retry('C15', REQ, UNFOLD, goals, chunk=max(1, -(-len(goals) // nshard)), timeout=1500, final_tac=INTEGRAL)
-            ok2, bad2, log2 = run_certs_retry('C15arb', REQ, [], ag, chunk=max(1, -(-len(ag) // nshard)), timeout=1500, extra_tac=ARB_UNFOLD, final_tac=ARB_FINAL)
+            # bounded: every goal under a Coq `timeout`, every shard under a shell timeout and a time budget, nothing retried blindly.
+            # Typical goal: 0.2-5 s CPU.  A goal that is not evaluated in time is neither a pass nor a failure (counted below).
+            gto, budget = (60, 300) if quick else (120, 1200)
+            ok, bad, un, log = run_certs_bounded('C15', REQ, UNFOLD, goals, gto, budget, final_tac=INTEGRAL)
+            ok2, bad2, un2, log2 = run_certs_bounded('C15arb', REQ, [], ag, gto, budget, extra_tac=ARB_UNFOLD, final_tac=ARB_FINAL)
             oks = set(ok) | {len(goals) + i for i in ok2}
             bad = list(bad) + [len(goals) + i for i in bad2]
+            uneval = set(un) | {len(goals) + i for i in un2}
             goals, descr, log = goals + ag, descr + ad, log + log2
             for i in range(len(goals)):
-                res.oblige('certificate %s' % (descr[i],), i in oks, log if i not in oks else '')
-            res.add_cases(len(goals), nontrivial=len({repr(d) for d in descr}))
+                if i not in uneval:
+                    res.oblige('certificate %s' % (descr[i],), i in oks, log if i not in oks else '')
+            # enough of every kind must have been evaluated, else the run is not evidence
+            for kind in ('pf_norm_load', 'pf_simple_load', 'pf_arbitrary_load'):
+                idx = [i for i, d in enumerate(descr) if d[0].startswith(kind)]
+                ev = [i for i in idx if i not in uneval]
+                res.oblige('at least 2/3 of the %s certificates were evaluated within the time limits (%d of %d)' % (kind, len(ev), len(idx)),
+                           3 * len(ev) >= 2 * len(idx), log)
+            res.add_cases(len(goals) - len(uneval), nontrivial=len({repr(descr[i]) for i in range(len(goals)) if i not in uneval}))
             for d in descr[:3] + descr[-2:]:
                 res.sample({'certificate': d})
             res.cov['certificate_goals'] = len(goals)
+            res.cov['certificate_goals_not_evaluated_within_time_limit'] = [descr[i] for i in sorted(uneval)][:20]
+            res.cov['certificate_goal_timeout_s_and_shard_budget_s'] = [gto, budget]
             res.cov['certificate_candidates_skipped_as_reported_failures'] = skipped
             res.cov['certificate_failed_inputs'] = [descr[i] for i in bad][:20]
         except Exception as e:   # noqa
             res.oblige('certificates could be generated and run', False, repr(e))
+    stage['certificates'] = round(time.time() - t0, 1)
     res.replay_known(still_fails)
 
 
@@ -523,7 +809,27 @@ def replay(res, rp):
         R.monotone(what, ps, g, oks, what == W_MONO_L)
         res.add_cases(2)
         return res.finish()
-    # anything else (pf_arbitrary_load on a random grid, pf_simple_load, broken obligation): the run is deterministic in the seed
+    if v.get('function') == 'pf_arbitrary_load' and 'strength_factors' in v and 'grid_order' in v:
+        # a sequence of pf_arbitrary_load calls on one sampled density: rebuilt from its description and evaluated again
+        p = dict(strength_median=v['base_strength_median'], strength_std=v['strength_std'], load_median=v['load_median'], load_std=v['load_std'])
+        R = Relations(res)
+        good = arb_sequence(R, _fp(), p, v['grid_points'], v['half_width_in_load_std'], v.get('grid_seed'), v['grid_order'], v['container'],
+                            v['strength_factors'])
+        print(json.dumps({'input': p, 'grid': {k: v[k] for k in ('grid_points', 'grid', 'grid_seed', 'grid_order', 'container', 'strength_factors')},
+                          'values_that_agree_now': good, 'observed_then': v.get('observed')}))
+        res.add_cases(R.n)
+        return res.finish()
+    if 'call' in v and 'strength_median' in v and what in (W_STATE, W_PURE, W_ERR):
+        spec = dict(strength_median=v['strength_median'], strength_std=v['strength_std'],
+                    ops=list(v.get('earlier_calls_on_the_same_object', [])) + [v['call']], array_factors=[1.0, 2.0, 0.5],
+                    array_loads=[v['strength_median']] * 3)
+        n, found = eval_state_sequence(spec)
+        print(json.dumps({'sequence': spec['ops'], 'findings_now': [f[0] for f in found]}))
+        for w2, kw in found:
+            res.violation(w2, **kw)
+        res.add_cases(n)
+        return res.finish()
+    # anything else (pf_simple_load, array-valued parameters, broken obligation): the run is deterministic in the seed
     os.environ['VERIF_SEED'] = str(rp.get('seed', 0))
     res.tier = rp.get('tier', res.tier)
     res.seed = rp.get('seed', res.seed)
